@@ -642,7 +642,14 @@ class Engine(Interp):
             """partition tags at a loop head: drop the tags created inside this loop, then (loop
             peeling) mark whether the head is reached from outside or through a back edge"""
             inner = body._loop_bodies.get(succ, ())
+            prev_it = [t[2] for t in s2.part if len(t) == 3 and t[0] == succ and t[1] == "it"]
             np_ = tuple(t for t in s2.part if not (len(t) == 3 and t[0] in inner))
+            uf = ctx.hooks.get("unroll")
+            K = uf(fr, succ) if uf else 0
+            if K:
+                back = src is not None and src in inner
+                k_ = min((prev_it[0] + 1) if (back and prev_it) else (1 if back else 0), K)
+                np_ = np_ + ((succ, "it", k_),)
             pf = ctx.hooks.get("peel_filter")
             if peel and (pf is None or pf(fr, succ)):
                 np_ = np_ + ((succ, "lp", "iter" if (src is not None and src in inner) else "first"),)
@@ -655,7 +662,7 @@ class Engine(Interp):
                 s2.part = s2.part[:part0]
                 ret_state = s2 if ret_state is None else join_states(ctx, ret_state, s2, ("ret", fr.id))
                 return
-            if succ in loop_heads and (s2.part or peel):
+            if succ in loop_heads and (s2.part or peel or ctx.hooks.get('unroll')):
                 retag(succ, s2, src)
             sk = (succ, s2.part)
             old = in_states.get(sk)
@@ -739,7 +746,7 @@ class Engine(Interp):
                         s2.part = s2.part[:part0]
                         ret_edges[(pfx, full)] = s2
                         return
-                    if succ in loop_heads and (s2.part or peel):
+                    if succ in loop_heads and (s2.part or peel or ctx.hooks.get('unroll')):
                         retag(succ, s2, pfx if isinstance(pfx, int) else None)
                     sk = (succ, s2.part)
                     per = edges_in.setdefault(sk, {})
